@@ -208,17 +208,37 @@ def second_moment(ctx, obs, rule='ND'):
     prog = ctx.prog
     q = S + 'make_dataset'
     f = prog.func(q)
-    g = [s for s in ast.walk(f.node) if isinstance(s, ast.Assign) and isinstance(s.targets[0], ast.Name) and s.targets[0].id == 'G']
-    ok = False
-    for s in g:
-        t = norm(s.value).replace(' ', '')
-        if t in ('-0.5*(H@D@H)', '-0.5*H@D@H', '-(H@D@H)/2', '-H@D@H/2'):
-            ok = True
-    obs.check(ok, rule, q, 'the second moment is the double-centred model RDM: G = -0.5 * H D H', f'{[norm(s) for s in g]}', '',
-              where(prog, f, f.node))
+    from ..rules import poly
+    # the matrix handed to make_signal as second moment: -1/2 * (H @ D @ H)
+    r = ctx.dep.result(q)
+    ms = [c for c in r.calls if any(x.endswith('make_signal') for x in c.callees)]
+    gname = ms[0].node.args[0].id if ms and ms[0].node.args and isinstance(ms[0].node.args[0], ast.Name) else 'G'
+    g = [s for s in ast.walk(f.node) if isinstance(s, ast.Assign) and isinstance(s.targets[0], ast.Name) and s.targets[0].id == gname]
+
+    def leaf(e):
+        if isinstance(e, ast.BinOp) and isinstance(e.op, ast.MatMult):
+            chain = []
+
+            def flat(x):
+                if isinstance(x, ast.BinOp) and isinstance(x.op, ast.MatMult):
+                    flat(x.left)
+                    flat(x.right)
+                else:
+                    chain.append(x.id if isinstance(x, ast.Name) else None)
+            flat(e)
+            if len(chain) == 3 and None not in chain and chain[0] == chain[2] and chain[0] != chain[1]:
+                return poly.sym('HDH')
+        return None
+    got = poly.from_expr(g[-1].value, leaf) if g else None
+    ref = poly.mul(poly.const(poly.Fraction(-1, 2)), poly.sym('HDH'))
+    if got is None:
+        obs.unk(rule, q, 'the second moment is the double-centred model RDM: G = -0.5 * H D H', f'{[norm(s) for s in g]}')
+    else:
+        obs.check(got == ref, rule, q, 'the second moment is the double-centred model RDM: G = -0.5 * H D H',
+                  f'G = `{norm(g[-1].value)}` == {poly.show(got)}, expected -1/2 * H D H', '', where(prog, f, g[-1]))
     h = [s for s in ast.walk(f.node) if isinstance(s, ast.Assign) and isinstance(s.targets[0], ast.Name) and s.targets[0].id == 'H']
     ok = any(isinstance(s.value, ast.Call) and _leaf(s.value.func) == 'centering' and 'shape[0]' in norm(s.value) for s in h)
-    obs.check(ok, rule, q, 'H is the centering matrix of the RDM\'s size', f'{[norm(s) for s in h]}', '', where(prog, f, f.node))
+    obs.soft(ok, rule, q, 'H is the centering matrix of the RDM\'s size', f'{[norm(s) for s in h]}', '', where(prog, f, f.node))
     q2 = 'util.matrix.centering'
     f2 = prog.func(q2)
     t = norm([n for n in ast.walk(f2.node) if isinstance(n, ast.Return)][0].value if any(isinstance(n, ast.Return) for n in ast.walk(f2.node)) else f2.node)
@@ -226,5 +246,5 @@ def second_moment(ctx, obs, rule='ND'):
     r2 = ctx.dep.result(q2)
     e = _I(r2, None, ('size',)).inline([n for n, _, _ in r2.returns if n is not None][0].value)
     et = ast.unparse(e).replace(' ', '')
-    obs.check('identity(SRC0)' in et and 'ones(SRC0)/SRC0' in et or 'eye(SRC0)' in et and '/SRC0' in et, 'ND', q2,
+    obs.soft('identity(SRC0)' in et and 'ones(SRC0)/SRC0' in et or 'eye(SRC0)' in et and '/SRC0' in et, 'ND', q2,
               'centering(n) = I - 1/n', f'`{ast.unparse(e)}`', '', where(prog, f2, f2.node))
